@@ -885,6 +885,255 @@ func runProxy(ids []ID, ops []*pop, class string) {
 	out.Add(nm.wrap(fmt.Sprintf("CProxy %s %s", vh.List(opTerms), vh.List(obsTerms))), class, maxClients >= 2, caseDescShort(ids, descOps))
 }
 
+// ---------------------------------------------------------------- a history with Channels
+
+const (
+	cReg = iota
+	cOpen
+	cPkt
+	cClose
+	cSend
+	cPoll
+)
+
+type cop struct {
+	kind int
+	d    ID
+	tags []uint32
+	pid  uint8
+	job  uint16
+}
+
+func (o *cop) desc() map[string]interface{} {
+	t := make([]int64, len(o.tags))
+	for i, v := range o.tags {
+		t[i] = int64(v)
+	}
+	m := map[string]interface{}{"op": [...]string{"hello through Listener.talk", "connection switches to Channel mode (conn.channelRead starts)",
+		"Channel packet (conn.channelRead -> conn.resolve(tags, true))", "Channel connection ends (conn.stop)", "Server.Session(dev).Send",
+		"poll through Listener.talk (own connection)"}[o.kind], "dev": hx(o.d)}
+	switch o.kind {
+	case cPkt:
+		m["tags"] = t
+	case cSend:
+		m["id"], m["job"] = int(o.pid), int(o.job)
+	case cReg:
+		m["job"] = int(o.job)
+	}
+	return m
+}
+
+func sortLeafs(l []outLeaf) {
+	sort.SliceStable(l, func(i, j int) bool { return int(l[i].job)*256+int(l[i].pid) < int(l[j].job)*256+int(l[j].pid) })
+}
+
+func runChan(ids []ID, ops []*cop, class string) {
+	srv, l := c2.VerifC15NewServer(keys)
+	open := map[ID]*c2.VerifC15Chan{}
+	lastTags := map[ID][]uint32{} // the tag list of the last Channel packet of each host with a running Channel
+	defer func() {
+		for _, h := range open {
+			h.Close()
+		}
+		srv.Close()
+	}()
+	nm := newNamer(ids)
+	var (
+		opTerms, obsTerms []string
+		descOps           []interface{}
+		maxRouted, nPkt   int
+		collUsed          bool
+	)
+	caseDesc := func() map[string]interface{} {
+		h := make([]string, len(ids))
+		for i, d := range ids {
+			h[i] = hx(d)
+		}
+		return map[string]interface{}{"ids": h, "channel_history": append([]interface{}(nil), descOps...), "failing_step": len(descOps)}
+	}
+	for k, o := range ops {
+		descOps = append(descOps, o.desc())
+		var (
+			ans      string
+			leafs    []outLeaf
+						skipped  bool
+			sentTo   *ID
+			sentJob  uint16
+			prevRts  = c2.VerifC15Routes(srv)
+			reg      = srv.Session(o.d)
+			_, isOpn = open[o.d]
+		)
+		for _, e := range prevRts {
+			if e.ID != o.d && e.ID.Hash() == o.d.Hash() {
+				collUsed = true
+			}
+		}
+		func() {
+			defer func() {
+				if x := recover(); x != nil {
+					ans = "(AErr 99)"
+					fail(fmt.Sprintf("panic in channel step %d: %v", k+1, x), "panic", caseDesc())
+				}
+			}()
+			talk := func(n *com.Packet) {
+				next, host, ok, err := c2.VerifC15Talk(l, "0", n)
+				switch {
+				case err != nil:
+					ans = fmt.Sprintf("(AErr %d)", errClass(err))
+				case next != nil && next.ID == c2.SvRegister && host == nil:
+					ans = "(ARegister " + nm.id(next.Device) + ")"
+				default:
+					leafs = flatten(next)
+					sortLeafs(leafs)
+					ans = fmt.Sprintf("(AReply %s %s)", vh.B(ok), nm.outs(leafs))
+				}
+			}
+			switch o.kind {
+			case cReg:
+				if isOpn {
+					ans, skipped = "(ABool false)", true
+					return
+				}
+				talk(c2.VerifC15Hello(o.d, o.job, machine))
+			case cOpen:
+				if reg == nil || isOpn {
+					ans, skipped = "(ABool false)", true
+					return
+				}
+				open[o.d] = c2.VerifC15ChanOpen(l, reg)
+				ans = "(ABool true)"
+			case cPkt:
+				if !isOpn {
+					ans, skipped = "(ABool false)", true
+					return
+				}
+				nPkt++
+				if open[o.d].Feed(o.d, o.tags) {
+					ans = "(ABool true)"
+					lastTags[o.d] = o.tags
+				} else {
+					ans = "(AErr 5)"
+					delete(open, o.d)
+					delete(lastTags, o.d)
+				}
+			case cClose:
+				if !isOpn {
+					ans, skipped = "(ABool false)", true
+					return
+				}
+				open[o.d].Close()
+				delete(open, o.d)
+				delete(lastTags, o.d)
+				ans = "(ABool true)"
+			case cSend:
+				if reg == nil {
+					ans = "(AFound None)"
+					return
+				}
+				i := reg.ID
+				ans = "(AFound " + nm.oid(&i) + ")"
+				reg.Send(&com.Packet{ID: o.pid, Job: o.job, Device: o.d})
+				sentTo, sentJob = &i, o.job
+			case cPoll:
+				if isOpn {
+					ans, skipped = "(ABool false)", true
+					return
+				}
+				talk(&com.Packet{Device: o.d})
+			}
+		}()
+		if !c2.VerifC15Barrier(srv) {
+			panic("barrier timeout")
+		}
+		rts := c2.VerifC15Routes(srv)
+		ts := make([]string, len(rts))
+		routed := 0
+		byKey := map[uint32]c2.VerifC15Route{}
+		for i, e := range rts {
+			byKey[e.Key] = e
+			q := make([]outLeaf, len(e.Out))
+			for j, p := range e.Out {
+				q[j] = outLeaf{p.Device, p.ID, p.Job}
+			}
+			sortLeafs(q)
+			if e.Route != 0 {
+				routed++
+			}
+			ts[i] = fmt.Sprintf("(%d,%s,%d,%s)", e.Key, nm.id(e.ID), e.Route, nm.outs(q))
+		}
+		if routed > maxRouted {
+			maxRouted = routed
+		}
+		var hosts []ID
+		for d := range open {
+			hosts = append(hosts, d)
+		}
+		sort.Slice(hosts, func(i, j int) bool { return hosts[i].Hash() < hosts[j].Hash() })
+		cs := make([]string, len(hosts))
+		for i, d := range hosts {
+			cs[i] = fmt.Sprintf("(%d,%s)", d.Hash(), zl32(open[d].Subs()))
+		}
+		switch o.kind {
+		case cReg:
+			opTerms = append(opTerms, fmt.Sprintf("KReg %s %d", nm.id(o.d), o.job))
+		case cOpen:
+			opTerms = append(opTerms, "KOpen "+nm.id(o.d))
+		case cPkt:
+			opTerms = append(opTerms, fmt.Sprintf("KPkt %s %s", nm.id(o.d), zl32(o.tags)))
+		case cClose:
+			opTerms = append(opTerms, "KClose "+nm.id(o.d))
+		case cSend:
+			opTerms = append(opTerms, fmt.Sprintf("KSend %s %d %d", nm.id(o.d), o.pid, o.job))
+		default:
+			opTerms = append(opTerms, "KPoll "+nm.id(o.d))
+		}
+		obsTerms = append(obsTerms, fmt.Sprintf("CObs %s %s %s", ans, vh.List(ts), vh.List(cs)))
+
+		// ---- oracle: outbound packets are only handed to the connection that serves their device.
+		// A Channel connection serves the devices its host tagged in its LAST packet (and the host).
+		serves := func(hostKey uint32, dev ID) bool {
+			h, ok := byKey[hostKey]
+			if !ok {
+				return false
+			}
+			if h.ID == dev {
+				return true
+			}
+			t, ok := lastTags[h.ID]
+			return ok && u32In(dev.Hash(), t)
+		}
+		if !skipped {
+			// (1) a session is routed into a host's Channel only while that host's last tag list names it
+			for _, e := range rts {
+				if e.Route != 0 && !serves(e.Route, e.ID) {
+					key := "channel-route-not-in-last-tag-list"
+					if o.kind == cPkt && len(o.tags) == 0 {
+						key = "channel-route-kept-after-empty-tag-list"
+					}
+					fail("the outbound queue of device B is redirected into the Channel of a host whose last Channel packet does not tag B", key, caseDesc())
+					break
+				}
+			}
+			// (2) a packet queued for d sits in d's own queue or in the queue of a host that currently serves d
+			if sentTo != nil {
+				for _, e := range rts {
+					for _, p := range e.Out {
+						if p.Job == sentJob && p.Device == *sentTo && e.ID != *sentTo && !serves(e.Key, *sentTo) {
+							fail("a packet queued for device B was pushed into the Channel queue of a host that does not (any longer) tag B", "channel-send-to-host-not-tagging", caseDesc())
+						}
+					}
+				}
+			}
+			// (a host's own poll after its Channel ended legitimately carries what was queued for the devices it
+			// served while they were routed to it: not checked)
+		}
+	}
+	if collUsed {
+		class += "-collision"
+	}
+	out.Add(nm.wrap(fmt.Sprintf("CChan %s %s", vh.List(opTerms), vh.List(obsTerms))), class, maxRouted >= 1 && nPkt >= 2, caseDescShort(ids, descOps))
+}
+
 // ---------------------------------------------------------------- generators
 
 func randID() ID {
@@ -1215,6 +1464,85 @@ func main() {
 			ops = append(ops, o)
 		}
 		runProxy(pool, ops, "proxy")
+	}
+	// ---- Channels: corpus
+	{
+		a, b := pairs[0][0], pairs[0][1]
+		c, d := randID(), randID()
+		reg := func(x ID) *cop { return &cop{kind: cReg, d: x, job: nextJob()} }
+		snd := func(x ID) *cop { return &cop{kind: cSend, d: x, pid: uint8(0xD0 + rng.Intn(8)), job: nextJob()} }
+		pk := func(x ID, t ...uint32) *cop { return &cop{kind: cPkt, d: x, tags: t} }
+		// the host tags c, then nobody (empty list), then c again, then ends; a packet is queued for c in each phase
+		runChan([]ID{a, c}, []*cop{reg(a), reg(c), {kind: cPoll, d: a}, {kind: cPoll, d: c}, {kind: cOpen, d: a}, pk(a, c.Hash()), snd(c), pk(a), snd(c),
+			{kind: cPoll, d: c}, pk(a, c.Hash()), snd(c), {kind: cClose, d: a}, snd(c), {kind: cPoll, d: c}, {kind: cPoll, d: a}}, "corpus-chan")
+		// full list, shorter list, unknown tag, duplicate, own tag, colliding (unregistered) id, zero tag
+		runChan([]ID{a, b, c, d}, []*cop{reg(a), reg(c), reg(d), reg(b), {kind: cOpen, d: a}, snd(c), snd(d), pk(a, c.Hash(), d.Hash()), snd(c), snd(d),
+			pk(a, d.Hash(), 12345, d.Hash(), a.Hash()), snd(c), snd(d), pk(b), {kind: cOpen, d: b}, snd(b), pk(a, c.Hash(), 0, d.Hash()), snd(c), snd(d),
+			{kind: cPoll, d: c}, {kind: cPoll, d: d}, {kind: cPoll, d: a}}, "corpus-chan")
+		// two hosts tag the same device
+		runChan([]ID{a, c, d}, []*cop{reg(a), reg(c), reg(d), {kind: cOpen, d: a}, {kind: cOpen, d: c}, pk(a, d.Hash()), pk(c, d.Hash()), snd(d), pk(a), snd(d),
+			pk(c, d.Hash()), snd(d), {kind: cClose, d: c}, snd(d), {kind: cPoll, d: d}, {kind: cClose, d: a}, {kind: cPoll, d: a}, {kind: cPoll, d: c}}, "corpus-chan")
+	}
+	nChan := 150
+	if thorough {
+		nChan = 4000
+	}
+	for i := 0; i < nChan; i++ {
+		pool := genPool(pairs)
+		var np []ID
+		for _, d := range pool {
+			if !d.Empty() {
+				np = append(np, d)
+			}
+		}
+		pool = np
+		jobCounter = 0
+		n := 8 + rng.Intn(25)
+		ops := make([]*cop, 0, n+4)
+		for j, m := 0, 2+rng.Intn(3); j < m; j++ {
+			ops = append(ops, &cop{kind: cReg, d: pick(pool), job: nextJob()})
+		}
+		ops = append(ops, &cop{kind: cOpen, d: ops[0].d})
+		var prev []uint32
+		for j := 0; j < n; j++ {
+			o := &cop{d: pick(pool)}
+			switch r := rng.Intn(100); {
+			case r < 8:
+				o.kind, o.job = cReg, nextJob()
+			case r < 16:
+				o.kind = cOpen
+			case r < 50:
+				o.kind = cPkt
+				if rng.Intn(3) > 0 { // mostly a packet of a host that is (probably) in Channel mode
+					o.d = ops[len(ops)-1-rng.Intn(len(ops))].d
+				}
+				switch x := rng.Intn(10); {
+				case x < 3: // the empty list
+				case x < 5 && len(prev) > 0: // a shorter list / the same list
+					o.tags = append([]uint32(nil), prev[:rng.Intn(len(prev)+1)]...)
+				default:
+					for q, m := 0, 1+rng.Intn(4); q < m; q++ {
+						switch y := rng.Intn(16); {
+						case y == 0:
+							o.tags = append(o.tags, 0)
+						case y == 1:
+							o.tags = append(o.tags, uint32(rng.U64())|1)
+						default:
+							o.tags = append(o.tags, pick(pool).Hash())
+						}
+					}
+				}
+				prev = o.tags
+			case r < 55:
+				o.kind = cClose
+			case r < 85:
+				o.kind, o.pid, o.job = cSend, uint8(0xD0+rng.Intn(8)), nextJob()
+			default:
+				o.kind = cPoll
+			}
+			ops = append(ops, o)
+		}
+		runChan(pool, ops, "chan")
 	}
 	fs := map[string]int{}
 	for k, v := range failSeen {
